@@ -267,12 +267,12 @@ class Gen:
             n_ops = 0
         weights = {
             "revisit": (0.30, 0.30, 0.36, 0.04),
-            "family": (0.40, 0.32, 0.27, 0.01),
+            "family": (0.38, 0.30, 0.26, 0.06),
             "mixed": (0.30, 0.30, 0.36, 0.04),
             "ctrl": (0.85, 0.05, 0.08, 0.02),
             "traffic": (0.10, 0.42, 0.45, 0.03),
             "wrap": (0.08, 0.42, 0.48, 0.02),
-            "power": (0.55, 0.15, 0.28, 0.02),
+            "power": (0.52, 0.14, 0.27, 0.07),
             "fuzz": (0.45, 0.35, 0.18, 0.02),
             "drop": (0.12, 0.45, 0.42, 0.01),
             "radio": (0.10, 0.45, 0.44, 0.01),
@@ -339,7 +339,9 @@ class Gen:
                 if clk is not None:
                     clk = (clk + 1) % H
             else:
-                clk = r.choice([0, 101, 102, H - 1, H - 2, r.randrange(H)])
+                # mostly to a frame in which a clock indication is due (every 102nd), or just before one
+                clk = r.choice([0, 101, 102, 204, 102 * r.randrange(0, 26000), 102 * r.randrange(0, 26000) - 1 if r.random() < 0.5 else 0,
+                                H - 1, H - 2, r.randrange(H)]) % H
                 ops.append("J %d" % clk)
         sd = r.randrange(0, 100000) if seed is None else seed
         return "world.run %d %s | %s" % (sd, ",".join(extra) if extra else "-", " ; ".join(ops))
